@@ -160,7 +160,7 @@ def string_facts(tier):
 
 
 ADVERSARIAL_TEXT = ["O'Neil (Jr)", "a\\b", ")(", "Q\"uote", "Main St (rear) #2", "x", "Lee-Ann", "", "Very Long Name " * 5,
-                    '"Smith"', "'Smith'", '""', "(Jr)", "[x]", "None", "0"]
+                    '"Smith"', "'Smith'", '""', "(Jr)", "[x]", "None", "0", "12  Elm St", "a   b  c", "tab\there", "dot . dot", "UPPER lower", "x-y_z"]
 
 
 def run_fill(year, sol_text, work, tag):
@@ -368,7 +368,7 @@ def synthetic_forms():
     floats = [0.0, -0.0, 1.0, -1.0, 0.005, 0.015, 2.675, 1234567.891, -98765.4321, 1e15, 123456789012345.67, 1e20, 1e-7, -1e-7, 0.1 + 0.2, 1 / 3.0, 99999.995]
     texts = ["", "x", "two words", "  padded both sides  ", "line one\nline two", "first\nsecond\nthird", "tab\there", "trailing space ",
              "UPPER lower", "semi;colon", "equals = sign", "colon: here", "[brackets]", "quote \" ' ", "# not a comment", "a\n\nb", "O'Neil (Jr) \\ x",
-             '"quoted"', "'quoted'", '""', "''", '"open', 'close"', "`tick`", "(paren)", "[x]", "{x}", "<x>", "%(x)s", "100%", "50%% off", "%", "$HOME", "~", "\\", "None", "True", "0", "1.0", "nan"]
+             '"quoted"', "'quoted'", '""', "''", '"open', 'close"', "`tick`", "(paren)", "[x]", "{x}", "<x>", "%(x)s", "100%", "50%% off", "%", "$HOME", "~", "two  blanks", "three   blanks  and two", "\\", "None", "True", "0", "1.0", "nan"]
     fields = []
     for places in (0, 2, 5):
         for j, x in enumerate(floats):
